@@ -212,6 +212,11 @@ func (x *Exec) rootReturn(st *State, f *Frame, res []Val) {
 		}
 		g := env.evalBool(cl.E)
 		x.emit(st, "ensures", clauseLabel(cl, n), cl.Text, cl.Props, g)
+		if cl.E.Op == "bin" && cl.E.Name == "==>" {
+			// vacuity guard: on at least one path the antecedent must be satisfiable
+			a := env.evalBool(cl.E.Args[0])
+			x.emit(st, "cover", "ensures."+clauseLabel(cl, n), "antecedent reachable: "+cl.E.Args[0].String(), nil, Not(a))
+		}
 		n++
 	}
 	x.frameObligations(st, env, con)
